@@ -86,6 +86,10 @@ pub enum Act {
 
 pub const LRS: [f64; 2] = [0.5, 2.0];
 
+/// build actions a machine did not generate because the reference refuses the operands / puts the
+/// result outside the compared domain / calls the combination unspecified (counted per generation)
+pub static FILTERED_BUILDS: [std::sync::atomic::AtomicU64; 3] = [std::sync::atomic::AtomicU64::new(0), std::sync::atomic::AtomicU64::new(0), std::sync::atomic::AtomicU64::new(0)];
+
 pub fn fmt_act(cfg: &MCfg, a: &Act) -> String {
     match a {
         Act::Build { op, args, dst } => format!(
@@ -1327,8 +1331,18 @@ impl Machine {
                     {
                         let ts: Vec<T> = args.iter().map(|s| rw.nodes[rw.slots[*s as usize].as_ref().unwrap().node].t.strip()).collect();
                         let refs: Vec<&T> = ts.iter().collect();
-                        if apply_ref(op, &refs).is_err() {
-                            continue;
+                        match apply_ref(op, &refs) {
+                            Ok(_) => {}
+                            Err(e) => {
+                                // counted: what a machine leaves out is where something can hide
+                                let c = match e {
+                                    RErr::Refuse => &FILTERED_BUILDS[0],
+                                    RErr::Domain => &FILTERED_BUILDS[1],
+                                    RErr::Unspecified => &FILTERED_BUILDS[2],
+                                };
+                                c.fetch_add(1, std::sync::atomic::Ordering::Relaxed);
+                                continue;
+                            }
                         }
                     }
                     let mut dsts: Vec<u8> = Vec::new();
